@@ -76,6 +76,7 @@ func registerAll() {
 	reg("B1", "index-guard exactness: every IndexOutOfBoundsError rejection is reachable exactly under the orderings of (index, bound) that are out of range for the operation (>= for access, > for insertion), and no non-error exit is reachable past the guard under those orderings", ruleB1)
 	reg("L15", "dedup-key completeness: the key under which the slab encoder shares an extra-data entry between inlined containers is a function of the encoded type information and of every field-name list handed in (data dependence through package callees, every non-empty-list return), and every field name enters it together with its length (injective encoding)", ruleL15)
 	reg("L16", "established sizes carry the encoded prefix: every literal, absolute assignment and computed size function starts from the prefix constant of the object's kind and state (data slabs: root / non-root / inlined per getPrefixSize; one constant for every other kind; list literals add their per-entry constant)", ruleL16)
+	reg("K3", "a stored key is materialised once: no key materialisation (Value.Storable with the key limit, directly or through an element constructor) is dominated by the true edge of a ValueComparator result (on that branch the stored key stays; a second materialisation orphans the first key slab)", ruleK3)
 	reg("K2", "entry counts: element.Count of a collision group is its own element list's Count, of a single element 1; elements.Count is the length of the receiver's element slice (the collision limit counts entries through these)", ruleK2)
 	reg("X7", "decoded objects own their storage: no slice, map or pointer reachable by loads alone from the slab's shared inlined extra data is stored into a freshly decoded slab, element list or extra data", ruleX7)
 	reg("X8", "no silent skip on a family downcast: a comma-ok assertion of a slab / element / element-list interface value to one member either reports the other members as an error or rejoins the common path; an early success return on the not-ok edge is a silent skip", ruleX8)
@@ -186,14 +187,14 @@ func registerAll() {
 	}
 	propTable["C09"] = &PropSpec{
 		ID:          "C09",
-		Rules:       []string{"R1", "R2", "R3", "R7", "N2", "N4", "X2", "X1", "N5"},
-		Explanation: "every new or modified slab is stored, every allocated id becomes a slab identity, every detach event (merge, bulk pop of children, inline, root promotion, external collision group collapse/pop) removes the register and uninline stores it, on every success path; every Storable handed back by an exported Array/OrderedMap method went through uninlineStorableIfNeeded (a detached inlined child becomes a stored standalone slab the caller can dispose of); every field of a slab/element type that can hold a slab reference is read by the ChildStorables call graph (so references are enumerable and removable), with sibling links and own ids exempt by table; every slab/element kind is handled by every family type switch. A detached child's parent-updater writes into its former parent only after its identity (value id: address and index) was confirmed for the slot: otherwise a stale handle evicts a live value that is never handed back (leaked slabs). An element overwritten with the very container it already holds is recognised before the overwritten storable is uninlined (otherwise the slab just stored as the new element is un-inlined under the parent).",
+		Rules:       []string{"R1", "R2", "R3", "R7", "N2", "N4", "X2", "X1", "N5", "K3", "S3", "S4"},
+		Explanation: "every new or modified slab is stored, every allocated id becomes a slab identity, every detach event (merge, bulk pop of children, inline, root promotion, external collision group collapse/pop) removes the register and uninline stores it, on every success path; every Storable handed back by an exported Array/OrderedMap method went through uninlineStorableIfNeeded (a detached inlined child becomes a stored standalone slab the caller can dispose of); every field of a slab/element type that can hold a slab reference is read by the ChildStorables call graph (so references are enumerable and removable), with sibling links and own ids exempt by table; every slab/element kind is handled by every family type switch. A detached child's parent-updater writes into its former parent only after its identity (value id: address and index) was confirmed for the slot: otherwise a stale handle evicts a live value that is never handed back (leaked slabs). An element overwritten with the very container it already holds is recognised before the overwritten storable is uninlined (otherwise the slab just stored as the new element is un-inlined under the parent). A key is materialised (possibly as a separate slab) only where no stored key was found equal to it, so an update never orphans the stored key's slab. A pending removal leaves the write set only after the register deletion was issued and succeeded, and no commit iteration skips an entry (a consumed tombstone without a ledger delete leaves an unreachable register behind).",
 		NotDecided:  "'referenced exactly once' and owner equality (facts about runtime id values).",
 		Technique:   "value-flow on return operands, field-read coverage over the ChildStorables call graph, type-switch exhaustiveness over closed families",
 	}
 	propTable["C12"] = &PropSpec{
 		ID:          "C12",
-		Rules:       []string{"K1", "K2", "R6", "X1", "R1", "R3", "L9"},
+		Rules:       []string{"K1", "K2", "K3", "R6", "X1", "R1", "R3", "L9"},
 		Explanation: "the collision-limit rejection is control dependent on level == 0, on a comparison with maxCollisionLimitPerDigest and on errors.As(KeyNotFoundError) of Get with the same key parameter (so updates of existing keys are never refused), and no mutation, store or allocation precedes it on any path; every element kind (single element, inline group, external group) and both element-list kinds are handled by every family type switch or by an erroring default. Collision groups and element lists report their true entry counts (the limit counts entries through element.Count).",
 		NotDecided:  "dictionary semantics under arbitrary digest assignments; correctness of spill/collapse transitions (value-dependent).",
 		Technique:   "control-dependence slices and backward reachability on go/ssa; type-switch exhaustiveness",
